@@ -450,12 +450,15 @@ decreasing_by simp only [List.length_drop, List.length_cons]; omega
 
 /-! ## `line` wrappers -/
 
+/-- the initial pieces for a carried literal -/
+def strsOf (p : Option String) : List String := match p with | some p => [p] | none => []
+
 /-- `line` in terms of `run` -/
-theorem line_eq_run (lno : Nat) (p ln : String) :
+theorem line_eq_run (lno : Nat) (p : Option String) (ln : String) :
     line lno p ln =
-      match run lno 0 ln.toList { strs := if p.isEmpty then [] else [p] } with
+      match run lno 0 ln.toList { strs := strsOf p } with
       | .error c => .error c
-      | .ok s => .ok { toks := s.toks, pending := String.join s.strs,
+      | .ok s => .ok { toks := s.toks, pending := if s.strs.isEmpty then none else some (String.join s.strs),
                        endCol := utf8Len ln.toList + 1 } := rfl
 
 theorem toList_append_ofList (ln : String) (l : List Char) :
@@ -467,26 +470,24 @@ theorem toList_ofList_append (l : List Char) (ln : String) :
   simp
 
 /-- a blank line (whitespace / comment only) yields no tokens and keeps pending -/
-theorem line_blank (lno : Nat) (p : String) (ln : String) (h : blankTail ln.toList = true) :
+theorem line_blank (lno : Nat) (p : Option String) (ln : String) (h : blankTail ln.toList = true) :
     line lno p ln = .ok { toks := [], pending := p, endCol := utf8Len ln.toList + 1 } := by
   rw [line_eq_run, run_blank lno _ _ _ h]
-  by_cases hp : p.isEmpty = true
-  · simp [String.isEmpty_iff.mp hp]
-  · simp [hp]
+  cases p <;> simp [strsOf, String.join_cons, String.join_nil]
 
 /-- leading whitespace only shifts columns -/
-theorem line_leading_ws (lno : Nat) (p ln : String) (ws : List Char) (hws : ws.all isWs = true) :
+theorem line_leading_ws (lno : Nat) (p : Option String) (ln : String) (ws : List Char) (hws : ws.all isWs = true) :
     line lno p (String.ofList ws ++ ln) =
       match line lno p ln with
       | .ok out => .ok { toks := out.toks.map (shiftTok (utf8Len ws)), pending := out.pending,
                          endCol := out.endCol + utf8Len ws }
       | .error c => .error (c + utf8Len ws) := by
   rw [line_eq_run, line_eq_run, toList_ofList_append, run_ws_prefix _ _ _ _ _ hws]
-  have := run_shift lno (utf8Len ws) ln.toList 0 { strs := if p.isEmpty then [] else [p] }
-  rw [show shiftSt (utf8Len ws) { strs := if p.isEmpty then [] else [p] }
-      = { strs := if p.isEmpty then [] else [p] } from rfl] at this
+  have := run_shift lno (utf8Len ws) ln.toList 0 { strs := strsOf p }
+  rw [show shiftSt (utf8Len ws) { strs := strsOf p }
+      = { strs := strsOf p } from rfl] at this
   rw [this]
-  cases run lno 0 ln.toList { strs := if p.isEmpty then [] else [p] } with
+  cases run lno 0 ln.toList { strs := strsOf p } with
   | error c => rfl
   | ok s =>
     simp only [shiftRes, shiftSt, utf8Len_append]
@@ -776,13 +777,13 @@ termination_by cs => cs.length
 decreasing_by simp only [List.length_drop, List.length_cons]; omega
 
 /-- appending a blank tail that starts with a whitespace char changes nothing but endCol -/
-theorem line_append_blank (lno : Nat) (p ln : String) (w : Char) (t : List Char) (out : LineOut)
+theorem line_append_blank (lno : Nat) (p : Option String) (ln : String) (w : Char) (t : List Char) (out : LineOut)
     (hw : isWs w = true) (ht : blankTail (w :: t) = true) (h : line lno p ln = .ok out) :
     line lno p (ln ++ String.ofList (w :: t)) =
       .ok { out with endCol := out.endCol + utf8Len (w :: t) } := by
   rw [line_eq_run] at h ⊢
   rw [toList_append_ofList]
-  cases hr : run lno 0 ln.toList { strs := if p.isEmpty then [] else [p] } with
+  cases hr : run lno 0 ln.toList { strs := strsOf p } with
   | error c => rw [hr] at h; cases h
   | ok s =>
     rw [run_append_blank lno t hw ht _ _ _ (Or.inl ⟨s, hr⟩), hr]
@@ -793,7 +794,7 @@ theorem line_append_blank (lno : Nat) (p ln : String) (w : Char) (t : List Char)
 
 /-- Error direction of `line_append_blank`. The extra hypothesis `hq` (no double quote in the
 appended text) is necessary: see the counterexample below. -/
-theorem line_append_blank_err (lno : Nat) (p ln : String) (w : Char) (t : List Char) (c : Nat)
+theorem line_append_blank_err (lno : Nat) (p : Option String) (ln : String) (w : Char) (t : List Char) (c : Nat)
     (hw : isWs w = true) (ht : blankTail (w :: t) = true) (hq : t.all (· != '"') = true)
     (h : line lno p ln = .error c) :
     line lno p (ln ++ String.ofList (w :: t)) = .error c := by
@@ -810,7 +811,7 @@ theorem line_append_blank_err (lno : Nat) (p ln : String) (w : Char) (t : List C
     exact isWs_ne hw (by decide)
   rw [line_eq_run] at h ⊢
   rw [toList_append_ofList, run_append_blank lno t hw ht _ _ _ (Or.inr hwq)]
-  cases hr : run lno 0 ln.toList { strs := if p.isEmpty then [] else [p] } with
+  cases hr : run lno 0 ln.toList { strs := strsOf p } with
   | error c' => rw [hr] at h; exact h
   | ok s => rw [hr] at h; cases h
 
@@ -823,39 +824,44 @@ example : blankTail " a # c".toList = false := by decide
 /-- a newline inside a comment body ends the comment, so this is not a `blankTail` -/
 example : blankTail "# a\nb".toList = false := by decide
 
-example : line 7 "" "let x = 1;" = .ok
+example : line 7 none "let x = 1;" = .ok
     { toks := [⟨.kwLet, "", ⟨7, 1⟩⟩, ⟨.ident, "x", ⟨7, 5⟩⟩, ⟨.equals, "", ⟨7, 7⟩⟩,
                ⟨.intLit, "1", ⟨7, 9⟩⟩, ⟨.semi, "", ⟨7, 10⟩⟩],
-      pending := "", endCol := 11 } := rfl
+      pending := none, endCol := 11 } := rfl
 
 /-- `line_blank` on a concrete comment line with a carried string -/
-example : line 3 "abc" "  \t// hi" = .ok { toks := [], pending := "abc", endCol := 9 } :=
-  line_blank 3 "abc" "  \t// hi" (by decide)
+example : line 3 (some "abc") "  \t// hi" = .ok { toks := [], pending := some "abc", endCol := 9 } :=
+  line_blank 3 (some "abc") "  \t// hi" (by decide)
+
+/-- `line_blank` keeps a pending EMPTY literal, and keeps "nothing pending" -/
+example : line 3 (some "") "  \t// hi" = .ok { toks := [], pending := some "", endCol := 9 } ∧
+    line 3 none "  \t// hi" = .ok { toks := [], pending := none, endCol := 9 } :=
+  ⟨line_blank 3 (some "") "  \t// hi" (by decide), line_blank 3 none "  \t// hi" (by decide)⟩
 
 /-- `line_append_blank` on a concrete line -/
-example : line 7 "" ("let x = 1;" ++ String.ofList (' ' :: "# c".toList)) = .ok
+example : line 7 none ("let x = 1;" ++ String.ofList (' ' :: "# c".toList)) = .ok
     { toks := [⟨.kwLet, "", ⟨7, 1⟩⟩, ⟨.ident, "x", ⟨7, 5⟩⟩, ⟨.equals, "", ⟨7, 7⟩⟩,
                ⟨.intLit, "1", ⟨7, 9⟩⟩, ⟨.semi, "", ⟨7, 10⟩⟩],
-      pending := "", endCol := 11 + 4 } :=
-  line_append_blank 7 "" "let x = 1;" ' ' "# c".toList _ (by decide) (by decide) rfl
+      pending := none, endCol := 11 + 4 } :=
+  line_append_blank 7 none "let x = 1;" ' ' "# c".toList _ (by decide) (by decide) rfl
 
 /-- `line_leading_ws` on a concrete line (the tab and the 3-byte U+2003 shift columns by 4) -/
-example : line 7 "" (String.ofList ['\t', '\u2003'] ++ "x;") = .ok
-    { toks := [⟨.ident, "x", ⟨7, 5⟩⟩, ⟨.semi, "", ⟨7, 6⟩⟩], pending := "", endCol := 7 } :=
-  (line_leading_ws 7 "" "x;" ['\t', '\u2003'] (by decide)).trans rfl
+example : line 7 none (String.ofList ['\t', '\u2003'] ++ "x;") = .ok
+    { toks := [⟨.ident, "x", ⟨7, 5⟩⟩, ⟨.semi, "", ⟨7, 6⟩⟩], pending := none, endCol := 7 } :=
+  (line_leading_ws 7 none "x;" ['\t', '\u2003'] (by decide)).trans rfl
 
 /-- the appended text must start with whitespace: `"a /" ++ "//c"` turns the slash token into
 a comment although `"//c"` alone is blank -/
 example : blankTail "//c".toList = true ∧
-    (line 1 "" "a /").toOption.map (·.toks.length) = some 2 ∧
-    (line 1 "" ("a /" ++ "//c")).toOption.map (·.toks.length) = some 1 := by decide
+    (line 1 none "a /").toOption.map (·.toks.length) = some 2 ∧
+    (line 1 none ("a /" ++ "//c")).toOption.map (·.toks.length) = some 1 := by decide
 
 /-- the error direction of `line_append_blank` fails without the no-quote hypothesis: an
 unterminated string literal is closed by a quote inside the appended comment -/
 example : isWs ' ' = true ∧ blankTail (' ' :: "# \"".toList) = true ∧
-    line 1 "" "\"abc" = .error 1 ∧
-    line 1 "" ("\"abc" ++ String.ofList (' ' :: "# \"".toList)) =
-      .ok { toks := [], pending := "abc # ", endCol := 9 } :=
+    line 1 none "\"abc" = .error 1 ∧
+    line 1 none ("\"abc" ++ String.ofList (' ' :: "# \"".toList)) =
+      .ok { toks := [], pending := some "abc # ", endCol := 9 } :=
   ⟨by decide, by decide, rfl, rfl⟩
 
 end Lex
